@@ -72,7 +72,7 @@ def one(v: Path, wt: Path, d: Path) -> dict:
             "no_failing_input": any("no-failing-input-found" in l for l in lines),
             "correspondence_disagreements": cov.get("correspondence_disagreements"),
             "oracle_failures": cov.get("oracle_failures"),
-            "obligations": cov.get("obligations"), "discharged": cov.get("discharged"),
+            "obligations": cov.get("obligations"), "discharged": cov.get("discharged", cov.get("obligations_discharged")),
             "first_failure": next((l[:300] for l in lines if l.startswith("failure:")), None),
             "first_broken": next((l[:300] for l in lines if l.startswith("broken:")), None),
             "secs": round(time.time() - t, 1),
